@@ -17,6 +17,7 @@ import TonVerif.Proofs.SrcBocAny
 import TonVerif.Proofs.SrcHashmapCnt
 import TonVerif.Proofs.SrcBocCnt
 import TonVerif.Proofs.SrcCtorCnt
+import TonVerif.Proofs.SrcEmitCnt
 
 namespace TonVerif.Properties.C19
 open TonVerif TonVerif.Model TonVerif.Model.Cost TonVerif.Proofs.Cost
@@ -471,6 +472,38 @@ theorem c19_src_build_linear (H : Bytes → Bytes) (calls : List (Bits × List C
     simp only [List.map_cons, List.sum_cons, List.length_cons]
     omega
 
+/-- PRUNED BRANCH (type 1), stated separately because the "≤ 4 level iterations" of `c19_src_hash_work` does NOT hold for it: its level mask is
+the second data byte (any value 0..255; the constructor does not bound it by 7), the level loop `for li in range(level + 1)` starts
+`≤ bit_length(mask byte) + 1 ≤ 9` iterations, the constructor returns only without references, and the depth loop and the hash loop over the
+references do not run at all (every iteration of the level loop but the hashed one `continue`s). -/
+theorem c19_src_level_loop_pruned (H : Bytes → Bytes) (bits : Bits) (refs : List CellInfo) :
+    (init_cnt H bits refs 1).2 1 ≤ levelIters 1 refs bits ∧ levelIters 1 refs bits ≤ 9 ∧
+    (init_cnt H bits refs 1).2 2 = 0 ∧ (init_cnt H bits refs 1).2 3 = 0 ∧
+    (∀ m, Generated.CellCtor.resolve_mask 1 refs bits = some m → refs = [] ∧ m < 256) := by
+  obtain ⟨a, b, c, d⟩ := pruned_ticks H bits refs
+  exact ⟨a, b, c, d, resolve_mask_pruned refs bits⟩
+
+/-- LEVEL MASKS FIT A BYTE, for every cell type: if the children's masks are ≤ 255 the constructed cell's mask is ≤ 255 - so the hypothesis of
+`c19_src_build_linear_any` holds of every child that was itself returned by this constructor (induction over the construction order; leaves have
+no children). -/
+theorem c19_src_mask_byte (H : Bytes → Bytes) (bits : Bits) (refs : List CellInfo) (ty : Int) (out : Generated.CellCtor.CtorOut)
+    (hr : ∀ r ∈ refs, r.mask ≤ 255) (h : Generated.CellCtor.init H bits refs ty = some out) : out.mask ≤ 255 :=
+  resolve_mask_le255 ty refs bits hr out.mask (init_mask H bits refs ty out h)
+
+/-- BUILDING A DAG, ANY CELL TYPES (ordinary, pruned, library, Merkle), no hypothesis on levels beyond "masks fit a byte" (`c19_src_mask_byte`:
+guaranteed by the constructor itself): every call starts ≤ 9 level iterations and `≤ 9 + 19·len(refs)` loop iterations (`d + lv(1 + 2d)` with
+`lv ≤ 9`: an ordinary cell over a pruned branch of mask 255 really hashes 9 levels), so `n` calls carrying `e` references: `≤ 9n + 19e`. -/
+theorem c19_src_build_linear_any (H : Bytes → Bytes) (calls : List (Bits × List CellInfo × Int))
+    (hok : ∀ c ∈ calls, ∀ r ∈ c.2.1, r.mask ≤ 255) :
+    (calls.map fun c => ctorIters H c.1 c.2.1 c.2.2).sum ≤ 9 * calls.length + 19 * (calls.map fun c => c.2.1.length).sum := by
+  induction calls with
+  | nil => simp
+  | cons c cs ih =>
+    have h := ctor_le_any H c.1 c.2.1 c.2.2 (hok c (by simp))
+    have := ih (fun x hx => hok x (by simp [hx]))
+    simp only [List.map_cons, List.sum_cons, List.length_cons, ctorIters] at *
+    omega
+
 /-- non-vacuity: an ordinary cell with two level-0 children: 2 + 1·(1 + 2·2) = 7 iterations, the level loop runs once -/
 example : let leaf : CellInfo := { kind := -1, bits := [], nrefs := 0, mask := 0, hashes := [[0]], depths := [0] }
     ((init_cnt (fun b => b) [true] [leaf, leaf] (-1)).1.isSome, ctorIters (fun b => b) [true] [leaf, leaf] (-1),
@@ -537,12 +570,12 @@ def srcToBocSteps (whileIterations : Nat) (keys : List PCell) (o : Opts) (out : 
   whileIterations + keys.length + keys.length + (keys.map (fun c => 1 + c.refs.length)).sum +
     (if o.hasIdx then keys.length else 0) + (if o.hasCrc then out - 4 else 0)
 
-/-- **C19 for the REGENERATED `Cell.to_boc`** (PARTIAL: the `while` bound is proved about the regenerated loop; the `for` loops are
+/-- **the regenerated `Cell.to_boc` is the layout of the `n` keys** (the loops counted by list lengths; the iteration counts of the loops AS WRITTEN are `c19_src_serialize_poly` below: the `while` bound is proved about the regenerated loop; the `for` loops are
 counted by the lengths of the lists they iterate, read off the equality `c04_src_to_boc_any` with the order-agnostic layout
 `flattenCells` / `emit`, not by an instrumented translation).  With the budget `1 + n + e + 1` the regenerated traversal returns
 a valid order `keys` of exactly the `n` distinct cells, the regenerated `to_boc` IS the lookup + layout of these keys (it raises
 or returns without running out of budget), and for every output the steps are `≤ 5·(n + e) + 1 + len(output)`. -/
-theorem c19_src_serialize_poly (p : PCell) (nc : NoCollision p) (cells : List PCell) (hn : (cells.map PCell.key).Nodup)
+theorem c19_src_serialize_layout (p : PCell) (nc : NoCollision p) (cells : List PCell) (hn : (cells.map PCell.key).Nodup)
     (hc : ∀ d ∈ subcells p, d ∈ cells) (hs : ∀ c ∈ cells, c ∈ subcells p) (o : Opts) :
     ∃ d, order (1 + cells.length + (cells.map (fun c => c.refs.length)).sum + 1) p [] = some d ∧
       to_boc (1 + cells.length + (cells.map (fun c => c.refs.length)).sum + 1) p o.hasIdx o.hasCrc o.hasCache o.flags =
@@ -574,6 +607,48 @@ theorem c19_src_serialize_poly (p : PCell) (nc : NoCollision p) (cells : List PC
   unfold srcToBocSteps
   rw [h1, hlen, hsum]
   split <;> split <;> omega
+
+/-- **C19 for the REGENERATED `Cell.order` + `Cell.serialize` + `Cell.to_boc`, loops as written** (`Generated.BocEmitCnt`: the regenerated text with
+every `List.foldlM` / `Py.while?` a counting loop; erasure `c19_src_emit_erase`): on EVERY DAG of cell objects with `n` distinct cells carrying `e`
+references, for every option set, with the iteration budget `1 + n + e + 1`: the traversal returns, and the iterations started by ALL loops -
+`while stack:` (1), its reference-push loop (2), the re-insertion loop over `reversed(post_order)` (3), the loop over `ordered_cells` (4) with the
+reference loop of `serialize` inside (0), the index loop (5) - are together `≤ 5n + 4e + 6`; the `enumerate` comprehension adds `n` steps and the
+Python-level CRC one per output byte before the checksum (not loops of the generated text), i.e. `≤ 6(n + e) + 6 + len(output)` in all.
+Proof: potential argument on the counting `while` (each iteration: push-loop ticks + stack before ≤ stack after + 1, `post_order` grows by ≤ 1), the
+fold invariant `len(serialized_cells_len) ≤ number of keys`, `Σ refs over the keys = e` (the keys are a permutation of the distinct cells). -/
+theorem c19_src_serialize_poly (p : PCell) (nc : NoCollision p) (cells : List PCell) (hn : (cells.map PCell.key).Nodup)
+    (hc : ∀ d ∈ subcells p, d ∈ cells) (hs : ∀ c ∈ cells, c ∈ subcells p) (o : Opts) :
+    let F := 1 + cells.length + (cells.map (fun c => c.refs.length)).sum + 1
+    let t := (TonVerif.Generated.BocEmitCnt.to_boc_cnt F p o.hasIdx o.hasCrc o.hasCache o.flags).2
+    (∃ d, order F p [] = some d) ∧
+    t 0 + t 1 + t 2 + t 3 + t 4 + t 5 ≤ 5 * cells.length + 4 * (cells.map (fun c => c.refs.length)).sum + 6 ∧
+    ∀ out, t 0 + t 1 + t 2 + t 3 + t 4 + t 5 + cells.length + (if o.hasCrc then out - 4 else 0) ≤
+      6 * (cells.length + (cells.map (fun c => c.refs.length)).sum) + 6 + out := by
+  intro F t
+  obtain ⟨d, hd, _, hlen, hsum, _⟩ := c19_src_serialize_layout p nc cells hn hc hs o
+  have tk := fun j => TonVerif.Proofs.SrcEmitCnt.to_boc_ticks F p nc o.hasIdx o.hasCrc o.hasCache o.flags d hd j
+  have t0 := tk 0; have t1 := tk 1; have t2 := tk 2; have t3 := tk 3; have t4 := tk 4; have t5 := tk 5
+  have z : ∀ (l : List PCell), (l.map fun (_ : PCell) => (0 : Nat)).sum = 0 := by intro l; induction l <;> simp_all
+  simp only [if_true, true_or, or_true, Nat.reduceEqDiff, if_false, or_self, or_false, false_or, hlen, hsum, z, Nat.add_zero, Nat.zero_add,
+    show ((0:Nat) = 1) = False by decide, show ((0:Nat) = 2) = False by decide, show ((0:Nat) = 3) = False by decide,
+    show ((0:Nat) = 4) = False by decide, show ((0:Nat) = 5) = False by decide] at t0 t1 t2 t3 t4 t5
+  have hF : F = 1 + cells.length + (cells.map (fun c => c.refs.length)).sum + 1 := rfl
+  have u0 : t 0 ≤ _ := t0
+  have u1 : t 1 ≤ _ := t1
+  have u2 : t 2 ≤ _ := t2
+  have u3 : t 3 ≤ _ := t3
+  have u4 : t 4 ≤ _ := t4
+  have u5 : t 5 ≤ _ := t5
+  clear t0 t1 t2 t3 t4 t5 tk
+  generalize t 0 = a0 at *; generalize t 1 = a1 at *; generalize t 2 = a2 at *; generalize t 3 = a3 at *; generalize t 4 = a4 at *; generalize t 5 = a5 at *
+  refine ⟨⟨d, hd⟩, ?_, fun out => ?_⟩
+  · omega
+  · split <;> omega
+
+/-- ERASURE for the counting copy of the emitter: it computes exactly the regenerated `Cell.to_boc` -/
+theorem c19_src_emit_erase (fuel : Nat) (p : PCell) (hi hc hcb : Bool) (fl : Nat) :
+    (TonVerif.Generated.BocEmitCnt.to_boc_cnt fuel p hi hc hcb fl).1 = to_boc fuel p hi hc hcb fl :=
+  TonVerif.Proofs.SrcEmitCnt.to_boc_cnt_erase fuel p hi hc hcb fl
 
 /-- non-vacuity: the diamond (root → m1, m2 → shared leaf: 4 cells, 4 references) meets the hypotheses; budget 10 -/
 example : ∃ d, order 10 Example.root [] = some d ∧ ValidOrder Example.root (Py.dictKeys d) := by
